@@ -156,6 +156,7 @@ type BundleOpts struct {
 	Twins       int  // extra exchanges whose status, headers and body are byte-identical to an earlier exchange (other URL)
 	SharedSlab  bool // the bodies are consecutive windows of one buffer (slices with spare capacity reaching into the next body)
 	SmallHeader bool // cap header values at 300 bytes (fault sweeps pay for every output byte at every position)
+	Lonely      int  // exchanges carrying Variants / Variant-Key headers that are the only representation of their URL (any version)
 }
 
 // VariantSet describes one generated variants URL.
@@ -198,6 +199,7 @@ func RandVariantSet(g *mon.Rand, u *url.URL, multiKey bool) *VariantSet {
 		total *= nv
 	}
 	vs.Variants = strings.Join(parts, ", ")
+	splitLines := g.Chance(1, 3)
 	keyOf := func(idx int) string {
 		ks := make([]string, naxes)
 		for a := naxes - 1; a >= 0; a-- {
@@ -228,6 +230,12 @@ func RandVariantSet(g *mon.Rand, u *url.URL, multiKey bool) *VariantSet {
 		h := RandHeader(g, 3)
 		h["Variants"] = []string{vs.Variants}
 		h["Variant-Key"] = []string{strings.Join(ks, ", ")}
+		if splitLines {
+			// the same lists given as several field lines (one per axis / per key): the lines of one field are joined with
+			// commas before they mean anything, on the wire and wherever the writer interprets them
+			h["Variants"] = append([]string{}, parts...)
+			h["Variant-Key"] = append([]string{}, ks...)
+		}
 		body := append([]byte(fmt.Sprintf("variant %v of %s;", grp, u)), RandBody(g, false)...)
 		vs.Exchanges = append(vs.Exchanges, &bundle.Exchange{Request: bundle.Request{URL: u}, Response: bundle.Response{Status: 200, Header: h, Body: body}})
 		vs.Combos = append(vs.Combos, grp)
@@ -274,6 +282,13 @@ func RandBundle(g *mon.Rand, o BundleOpts) (*bundle.Bundle, []*VariantSet) {
 				b.Exchanges = append(b.Exchanges[:pos], append([]*bundle.Exchange{e}, b.Exchanges[pos:]...)...)
 			}
 		}
+	}
+	for i := 0; i < o.Lonely; i++ {
+		// a resource that announces variants but is the only representation of its URL in this bundle
+		vs := RandVariantSet(g, fresh(true), false)
+		e := vs.Exchanges[g.Intn(len(vs.Exchanges))]
+		pos := g.Intn(len(b.Exchanges) + 1)
+		b.Exchanges = append(b.Exchanges[:pos], append([]*bundle.Exchange{e}, b.Exchanges[pos:]...)...)
 	}
 	if o.Version == version.VersionB1 || o.Primary {
 		if len(b.Exchanges) > 0 && g.Bool() {
@@ -375,6 +390,9 @@ func CorpusOpts(g *mon.Rand, i int, thorough bool, certs []*certurl.AugmentedCer
 	if o.Version == version.VersionB1 && g.Chance(1, 3) {
 		o.VariantSets = 1 + g.Intn(2)
 		o.MultiKey = g.Chance(1, 4)
+	}
+	if g.Chance(1, 4) {
+		o.Lonely = 1 + g.Intn(2)
 	}
 	return o
 }
